@@ -233,6 +233,49 @@ def ref_eval(node, env):
     return _feval(node, env, strict=True)
 
 
+PROBES = [
+    "(max(3,1))**(-3)",
+    "(min(2,5))**(-1)+x",
+    "max(2,3,4)**(-2)*y",
+    "(floor(7.5))**(-2)",
+    "2**(-1)+x",
+    "x*10**(-3)",
+    "(x>0)*(3)**(-2)",
+    "min(x,2)**(-1)",
+    "max(x,y,z)/min(3,4)",
+]
+
+
+def has_big_integer_constant(tree):
+    """Some all-integer-literal sub-expression has an exact value of 2**63 or more (e.g. 30**19): Python evaluates it as an
+    unbounded integer, which is not a machine number - arithmetic of such an object with arrays is outside the property's
+    'numbers' (counted, not judged)."""
+    import ast as _ast
+
+    def exact(n):
+        if isinstance(n, _ast.Constant) and isinstance(n.value, int) and not isinstance(n.value, bool):
+            return n.value
+        if isinstance(n, _ast.UnaryOp) and isinstance(n.op, (_ast.USub, _ast.UAdd)):
+            v = exact(n.operand)
+            return None if v is None else (-v if isinstance(n.op, _ast.USub) else v)
+        if isinstance(n, _ast.BinOp) and isinstance(n.op, (_ast.Add, _ast.Sub, _ast.Mult, _ast.Pow)):
+            a, b = exact(n.left), exact(n.right)
+            if a is None or b is None:
+                return None
+            if isinstance(n.op, _ast.Pow):
+                if b < 0 or b > 400 or abs(a) > 10**6:
+                    return None
+                return a**b
+            return a + b if isinstance(n.op, _ast.Add) else (a - b if isinstance(n.op, _ast.Sub) else a * b)
+        return None
+
+    for n in _ast.walk(tree):
+        v = exact(n)
+        if v is not None and abs(v) >= 2**63:
+            return True
+    return False
+
+
 # values of the named quantities: zeros, ordinary magnitudes, and tiny / huge ones (a compartment holding 1e-9 people is as
 # real a number as one holding 1e6)
 VALUES = [0.0, 0.0, 0.0, 1.0, 2.5, 0.3, 7.0, 1.0, 2.5, 0.3, 7.0, 1e-9, 3e-12, 4e-9, 1e6]
@@ -254,7 +297,7 @@ def gen_expr(rng, names, depth):
     if u < 0.5:
         op = ["+", "-", "*", "/", "/", "**", "//", "%"][int(rng.integers(0, 8))]
         if op == "**":
-            return "(%s)**%s" % (a, ["2", "0.5", "3", "1"][int(rng.integers(0, 4))])
+            return "(%s)**%s" % (a, ["2", "0.5", "3", "1", "2", "0.5", "-1", "-2", "(-3)", "19"][int(rng.integers(0, 10))])  # incl. negative and large integer exponents (integer ** integer must behave like real arithmetic too; results stay below 2**64 so that integer literals remain machine numbers)
         return "(%s)%s(%s)" % (a, op, b)
     if u < 0.6:
         return "-(%s)" % a
@@ -423,8 +466,9 @@ def run_case(case):
         if kind == "random":
             rng = np.random.default_rng(case["seed"])
             names = ["x", "y", "z", "a:b", "w:flow"]
-            for i in range(case["n"]):
-                s = gen_expr(rng, names, int(rng.integers(1, 5)))
+            for i in range(case["n"] + len(PROBES)):
+                # (a few hand-written shapes that the random generator reaches only in the thorough tier come first)
+                s = PROBES[i] if i < len(PROBES) else gen_expr(rng, names, int(rng.integers(1, 5)))
                 (accepted, fcn, deps, exc), events = audit(lambda: try_parse(s))
                 if not accepted:
                     R.bad("must-accept", "C19:rejects[random-arithmetic]", {"string": s, "error": repr(exc)[:300]})
@@ -439,6 +483,9 @@ def run_case(case):
                 else:
                     R.ok("dependency-set")
                 tree = ast.parse(s.replace(":", "___"), mode="eval")
+                if has_big_integer_constant(tree):
+                    R.count("expressions_with_integer_constants_beyond_machine_integers")
+                    continue
                 for mode in ("scalar", "array", "zeros"):
                     env = {}
                     for d in sorted(exp_deps):
@@ -453,6 +500,11 @@ def run_case(case):
                         exp = _feval(tree, env, strict=True, info=info)
                     except DontCare:
                         R.count("evaluations_outside_real_arithmetic")
+                        continue
+                    if info.get("nonfinite"):
+                        # some intermediate value overflows double precision (e.g. (1/3e-12)**64): Python floats raise where arrays give
+                        # inf; there is no finite real-arithmetic value to compare with
+                        R.count("evaluations_outside_double_range")
                         continue
                     if info.get("fragile"):
                         # within rounding distance of (but not at) a discontinuity of floor, //, % or a comparison: two correct
